@@ -13,7 +13,8 @@
       read is what bounds it;
     * NestedPayload.unpack ignores the inner end offset (slack inside the declared size is dropped);
     * Raw.unpack returns `len(data)` and `data[offset:]`;
-    * Flags.unpack returns `size` (not `offset + size`) while `absolute = false` (probed by the translator).
+    * Flags.unpack returns `offset + size` today (`absolute = true`, probed by the translator); the `absolute = false`
+      constructor argument is the pre-631e6a8 behaviour (returned `size`) and is no longer generated.
   Not in the model: Peer/key parsing inside NodePacker (a node entry with an unparsable key is rejected by the code; the
   model accepts it — the harness classifies that case separately), float conversion, inet_ntop.
 -/
